@@ -29,7 +29,7 @@ Definition accepts (ch : C04.chan) (v : value) : bool :=
 Definition check_case (c : case) : bool :=
   match c with
   | Structured ds e toks ch o =>
-      tokens_eqb (render_min e) toks &&
+      C04.text_ok e toks &&
       match C04.model ds e with
       | Some r => existsb (outcome_eqb (outcome_of_impl o)) (predicted r (accepts ch))
       | None => false
